@@ -27,12 +27,14 @@ class DynamicFields:
   def __setattr__(self, name, value):
     try:
       attr = super().__getattribute__(name)
-      if not isinstance(attr, DynamicField):
-        return super().__setattr__(name, value)
-      else:
-        attr.set(self, value)
     except AttributeError:
       return self._set_dynamic_field(name, value)
+    # (an AttributeError raised while the value is assigned is an error
+    #  of the assignment, not a missing attribute)
+    if not isinstance(attr, DynamicField):
+      return super().__setattr__(name, value)
+    else:
+      attr.set(self, value)
 
   def _get_dynamic_field(self, name, err):
     if self.virtual:
